@@ -60,6 +60,8 @@ pub(super) struct JsonTokenizer<'a> {
     json: &'a [u8],
     lookahead: Option<char>,
     skip_whitespaces: bool,
+    /// Current nesting depth of arrays/objects being converted (kept by the reader).
+    pub(super) depth: usize,
 }
 
 impl<'a> JsonTokenizer<'a> {
@@ -68,6 +70,7 @@ impl<'a> JsonTokenizer<'a> {
             json: s.as_bytes(),
             lookahead: None,
             skip_whitespaces: true,
+            depth: 0,
         }
     }
 
